@@ -57,7 +57,7 @@ theorem validList_leaves (b : Bool) : ∀ ks : List HTree, (∀ k ∈ ks, k.kids
     exact ⟨validTree_leaf b k (h k (by simp)),
       validList_leaves b ks (fun x hx => h x (List.mem_cons_of_mem _ hx))⟩
 
-theorem validList_append (b : Bool) (a c : List HTree) :
+theorem ff_validList_append (b : Bool) (a c : List HTree) :
     validList b (a ++ c) = (validList b a && validList b c) := by
   induction a with
   | nil => simp [validList]
@@ -220,7 +220,7 @@ mutual
             · intro k hk; have := hc2 k hk
               cases hvv : k.value <;> simp_all [Value.category, Value.isText]
             · exact built_noAdjacentText k3 cs h3 hadj'
-      · rw [validList_append, validList_append, validList_leaves b k1 hl1, validList_leaves b k2 hl2,
+      · rw [ff_validList_append, ff_validList_append, validList_leaves b k1 hl1, validList_leaves b k2 hl2,
           validList_of_erase cs k3 b h3 hwfl]
         rfl
   theorem validList_of_erase : ∀ (cs : List FContent) (ts : List HTree) (b : Bool),
@@ -275,7 +275,7 @@ theorem Forest.inv_add_root (f : Forest) (hinv : f.Inv) (d : FDocument) (t : HTr
     ({ f with roots := f.roots ++ [t], next := n' } : Forest).Inv := by
   refine ⟨hinv.notCorrupt, hg.nodup, hg.below, ?_, hinv.consOn⟩
   show validList (!f.everOff) (f.roots ++ [t]) = true
-  rw [validList_append, hinv.valid]
+  rw [ff_validList_append, hinv.valid]
   simp only [validList, Bool.and_true, Bool.true_and]
   cases heo : f.everOff with
   | true =>
